@@ -87,7 +87,7 @@ pub fn make_where_clause<'a>(
         if is_compact {
             where_clause
                 .predicates
-                .push(parse_quote!(#ty : #scale_info :: scale::HasCompact));
+                .push(parse_quote!(#ty : #scale_info :: scale::HasCompact + #scale_info ::TypeInfo + 'static));
         } else {
             where_clause
                 .predicates
